@@ -592,6 +592,37 @@ def check_c19(rep, tier):
         if fresh[i] is not None and fresh[i] != model_t and not rep.violations:
             rep.violation("model-vs-impl", f"correspondence:C19:transcript depth {d} @ {f}", f"engine {fresh[i]}\nmodel {model_t}",
                           replay_ops=[f"position fen {f}", f"go depth {d}"], no_input=True)
+    # games with a history (the engine's own last moves repeat: A B A B): the root looks at the move record, and whatever it
+    # keeps about it must not depend on anything that differs between two processes (hash-map iteration order, addresses)
+    HIST = ["position fen 8/1q5k/8/8/8/8/8/K5N1 w - - 0 1 moves g1f3 h7h8 f3g1 h8h7 g1f3 h7h8 f3g1 b7f3",
+            "position startpos moves g1f3 g8f6 f3g1 f6g8 g1f3 g8f6 f3g1 f6g8 b1c3 b8c6 c3b1 c6b8 b1c3 b8c6 c3b1",
+            "position fen 4k3/8/8/8/8/8/4P3/R3K2R w KQ - 0 1 moves a1b1 e8d8 b1a1 d8e8 a1b1 e8d8 b1a1 d8e8 h1g1 e8d8 g1h1 d8e8 h1g1 e8d8 g1h1 d8e8"]
+
+    def hist_search(cmd, depth, reset):
+        e = Engine()
+        try:
+            if reset:
+                for c in ("position startpos", "go depth 2", "wait", "ucinewgame"):
+                    e.send(c)
+                if e.sync(60) is None:
+                    return None
+            e.send(cmd)
+            e.send("go depth %d" % depth)
+            lines, ok, eof = e.read_until(lambda l: l.startswith("bestmove"), 60)
+            return transcript_of([l for _, l in lines]) if ok else None
+        finally:
+            e.close()
+
+    with cf.ThreadPoolExecutor(max_workers=8) as ex:
+        for cmd in HIST:
+            for d in (3, 4):
+                runs_h = list(ex.map(lambda k: hist_search(cmd, d, k % 2 == 1), range(10 if tier == "quick" else 40)))
+                stats["runs"] += len(runs_h)
+                kinds["history_runs"] += len(runs_h)
+                bad = next((x for x in runs_h if x != runs_h[0]), "same")
+                if bad != "same":
+                    rep.violation("impl-vs-spec", f"fixed-depth search after a game with repeated moves is not reproducible across fresh processes, depth {d}",
+                                  f"{runs_h[0]}\nvs\n{bad}", replay_ops=[cmd, "go depth %d" % d])
     # deeper searches, implementation only (the model is too slow there): quiet positions with many near-equal moves,
     # where anything that survives the reset (table, history counters, killers, a sleeping timer) changes the answer
     E2E4 = "rnbqkbnr/pppp1ppp/8/4p3/4P3/8/PPPP1PPP/RNBQKBNR w KQkq - 0 2"
@@ -754,6 +785,35 @@ def check_immediate_stop(rep, stats):
                 got.append((core.fen4(fen), (lines[-1][1].split() + ["none"])[1], replay))
             finally:
                 e.close()
+    # capture-heavy positions: whatever the engine does before its first iteration (ranking a fallback move, say) must
+    # look at the stop flag too — the answer to an immediate stop comes at once (the fastest of three tries within 1.2 s)
+    for fen in ("1QqQqQq1/r6Q/Q6q/q6Q/B2q4/q6Q/k6K/1q4R1 w - - 0 1", "1qQqQqQ1/R6q/q6Q/Q6q/b2Q4/Q6q/K6k/1Q4r1 b - - 0 1"):
+        best = None
+        for _ in range(3):
+            e = Engine(env={"RUSTYBAIT_VERIF_SEARCH_THREAD_START_MS": 40})
+            try:
+                if e.sync(20) is None:
+                    break
+                e.send("position fen " + fen)
+                ack = e.sync(10)
+                if ack is None or any(l.startswith("error") for l in ack):
+                    break                      # the reader refuses the position: nothing to measure
+                t0 = time.time()
+                e.send("go infinite")
+                e.send("stop")
+                lines, ok, eof = e.read_until(lambda l: l.startswith("bestmove"), 30)
+                dt = time.time() - t0
+                stats["immediate_stops"] += 1
+                best = dt if best is None else min(best, dt)
+                if ok:
+                    got.append((core.fen4(fen), (lines[-1][1].split() + ["none"])[1], ["position fen " + fen, "go infinite", "stop"]))
+                if dt < 1.2:
+                    break
+            finally:
+                e.close()
+        if best is not None and best >= 1.2:
+            rep.violation("impl-vs-spec", f"`stop` right after `go infinite` answered only after {best:.1f} s (fastest of three tries) @ {core.fen4(fen)}",
+                          "", replay_ops=["position fen " + fen, "go infinite", "stop"])
     q = []
     for f4, bm, _ in got:
         q.append("spec_status " + f4)
